@@ -208,3 +208,24 @@ def question_mark_programs():
             rb = "let x = (|| -> Option<String> { let r = %s; Some(format!(\"{:?}\", r)) })();\nformat!(\"{:?}\", x)" % ref
             progs.append(Prog("qmark/%d/%s" % (ci, mac), rb, mb, rows, "Full" if mac == "join" else "Proj", meta={"macro": mac, "dsl": d, "ref": ref}))
     return progs
+
+
+def handler_lookalike_programs():
+    """operands that ARE identifiers / paths / fields called `then`, `map`, `and_then`, directly followed by `=>`: inside a chain they
+    are operands of the operator in front of them (a handler stands where a branch would start)"""
+    progs = []
+    rows = [[1, 2], [0, 3], [5, 0]]
+    pro = ("let then = |v: i32| Some(v + 1); let map = |v: i32| if v > 1 { Some(v * 3) } else { None }; let and_then = |v: i32| Some(v - 1);\n"
+           "struct Ops { and_then: fn(i32) -> Option<i32>, then: fn(i32) -> Option<i32> } let ops = Ops { and_then: |v| Some(v + 10), then: |v| Some(v + 20) };\n")
+    cases = [
+        ("join! { opt(0) => then => |v: i32| Some(v * 2), opt(1) => map => and_then }",
+         "(opt(0).and_then(then).and_then(|v: i32| Some(v * 2)), opt(1).and_then(map).and_then(and_then))"),
+        ("try_join! { opt(0) => ops.and_then => |v: i32| Some(v * 2), opt(1) => ops.then => then, map => |a: i32, b: i32| a * 1000 + b }",
+         "{ let a = opt(0).and_then(ops.and_then).and_then(|v: i32| Some(v * 2)); let b = opt(1).and_then(ops.then).and_then(then); match (a, b) { (Some(a), Some(b)) => Some(a * 1000 + b), _ => None } }"),
+        ("join! { opt(0) => and_then => map => then ~=> then, opt(1) }",
+         "(opt(0).and_then(and_then).and_then(map).and_then(then).and_then(then), opt(1))"),
+    ]
+    for ci, (d, r) in enumerate(cases):
+        fm = '\nformat!("{:?}", x)'
+        progs.append(Prog("handlerlike/%d" % ci, pro + "let x = %s;%s" % (r, fm), pro + "let x = %s;%s" % (d, fm), rows, "Full", meta={"macro": "join", "dsl": d, "ref": r}))
+    return progs
